@@ -60,6 +60,9 @@ class NetworksConfigConstructor:
                 hostname = "localhost"
             if port is None:
                 port = self._get_unused_port(hostname)
+                if port is None:
+                    raise ValueError("Cannot add node {}, since no unused port between 8000 and 9000 is left on {}."
+                                     .format(node_name, hostname))
             else:
                 free = self._check_port_available(hostname, port)
                 if not free:
